@@ -520,3 +520,39 @@ PROPS["C10"] = {
         {"name": "readers", "mode": "plain", "run": "TestC10Readers", "race": True, "env": {"VERIF_C10_STRESS_MS": {"quick": 4000, "thorough": 60000}}},
     ],
 }
+
+PROPS["C20"] = {
+    "level": "exploration",
+    "rule": ("rapid unit: state machine on one cache (own process per shard: rlimits and inotify accounting are process-wide) over a pool of 4 "
+             "directories (existing or missing, optional initial Spec). Actions: Configure with 0..3 generated options (directory lists of "
+             "0..3 pool entries with repeats, auto-refresh on/off, several options in one call, empty call), directory changes (put a valid "
+             "or invalid Spec by rename, remove an entry, remove the directory), and a descriptor-shortage window (RLIMIT_NOFILE lowered to "
+             "the table size, holes filled) during which the cache is reconfigured and queried. Oracle after every step: obs.FullView "
+             "(devices with path, priority, definition; all error keys; directory list; directory-error keys) equals the view of a new cache "
+             "created with the final options - in auto mode within a 10 s bound, in manual mode the view must stay stale after a directory "
+             "change and follow an explicit Refresh(); the process holds exactly one inotify descriptor iff auto-refresh is on, with exactly "
+             "one watch per existing distinct configured directory (/proc/self/fd, fdinfo); after a shortage window every query answers from "
+             "the current directory contents (directory-level error keys excepted). growth unit: descriptors, inotify descriptors, watches "
+             "and goroutines after 4, 52, 200 and 400 reconfigurations must not grow (tolerance 2). defcache unit: generated histories of "
+             "cdi.Configure / directory changes on the package-level default cache, each in its own helper process, before or after first "
+             "use, compared with a new cache with the final options (defaults: /etc/cdi, /var/run/cdi, auto on). One case = one history. "
+             "Non-trivial iff >= 3 reconfigurations including an auto switch or a directory-list change, or a shortage window (rapid); "
+             ">= 2 cdi.Configure calls (defcache); distinct = distinct histories."),
+    "assumptions": ["known finding F16 (partial shortage with a reusable watcher) is excluded by construction and probed separately (unit known-f16)",
+                    "'soon' = 10 s bound; inotify bookkeeping is given 3 s to settle (fsnotify closes its descriptors asynchronously)"],
+    "manifest": {
+        "text": ("Model-based stateful test: after any generated sequence of reconfigurations, directory changes and descriptor shortages the "
+                 "cache is compared with a freshly created one, and its kernel resources are counted from /proc; plus a growth series and "
+                 "the process-wide default cache in separate processes. Sampling of histories; schedules not controlled."),
+        "note": "trusted: a new cache with the final options as reference; /proc/self/fd and fdinfo for resource counts",
+        "technique": "property-based testing: rapid state machine with differential oracle (fresh cache), resource invariants from /proc, fault injection by RLIMIT_NOFILE; helper process per default-cache history",
+    },
+    "helpers": ("vhelper",),
+    "health": {"quick": {"auto-switched": 200, "dir-list-changed": 200, "descriptor-shortage": 200, "configured-after-first-use": 50, "configured-before-first-use": 50, "growth-series": 2}},
+    "units": [
+        {"name": "rapid", "mode": "rapid", "run": "TestC20Rapid", "race": True, "checks": {"quick": 480, "thorough": 12000}, "timeout": {"quick": 400, "thorough": 3600}},
+        {"name": "growth", "mode": "plain", "run": "TestC20Growth", "race": True},
+        {"name": "defcache", "mode": "rapid", "run": "TestC20DefaultCache", "race": True, "shards": 8, "checks": {"quick": 400, "thorough": 8000}},
+        {"name": "known-f16", "mode": "plain", "run": "TestC20KnownF16", "race": True},
+    ],
+}
